@@ -528,6 +528,8 @@ def build_plot(q, np, case, p=None, info=None, lo=None, hi=None):
             if o["label"]:
                 kw["label"] = o["label"]
             kw.update(hist_kwargs(o))
+            if o.get("default_bins"):
+                del kw["bins"]          # the library's default binning (10 bins)
             s = q.MeasurementArray(list(o["samples"])) if o["how"] == "marray" else list(o["samples"])
             n, edges = p.hist(s, **kw)
             info.append({"returned": ([float(v) for v in n], [float(v) for v in edges])})
@@ -829,6 +831,8 @@ def hist_numpy(np, o):
     """independent oracle: numpy.histogram (and numpy.histogram_bin_edges for a named rule) on the
     same samples and the same arguments"""
     kw = {"bins": list(o["bins"]) if isinstance(o["bins"], list) else o["bins"]}
+    if o.get("default_bins"):
+        del kw["bins"]
     if o["range"] is not None:
         kw["range"] = tuple(o["range"])
     out = {}
@@ -846,8 +850,9 @@ def hist_numpy(np, o):
 
 def hist_opts_text(o):
     w = o.get("weights")
-    return "{}{}".format(", density" if o.get("density") else "",
-                         ", weights[{}]".format(len(w)) if w is not None else "")
+    return "{}{}{}".format(" (default)" if o.get("default_bins") else "",
+                           ", density" if o.get("density") else "",
+                           ", weights[{}]".format(len(w)) if w is not None else "")
 
 
 def hist_options(rng, h, target=False):
@@ -865,6 +870,10 @@ def hist_options(rng, h, target=False):
             inside = [v for v in s if lo <= v <= hi]
             if lo < hi and len(inside) >= 3 and inside[0] < inside[-1]:
                 h["range"] = [lo, hi]
+    elif r < 0.34 and not target:
+        if isinstance(h["bins"], list):
+            h["range"] = None
+        h["bins"], h["default_bins"] = 10, True     # no bins= given: the default binning
     h["density"] = rng.random() < 0.4
     h["weights"] = None
     if rng.random() < 0.4 and not isinstance(h["bins"], str):
